@@ -142,6 +142,8 @@ Fate(st, en) ==
     [] en.k = "mark" -> "gone"
     [] en.k = "term" -> IF AState(st, en.aid) = "zombie" THEN "gone" ELSE "stay"
     [] en.k = "slabrm" -> IF AState(st, en.aid) = "prep" THEN "hold" ELSE "gone"
+    [] en.k = "retcall" /\ en.prep ->     \* Ret aimed at a Prep-style function: runs only in Prep, else a no-op
+         IF AState(st, en.aid) = "prep" THEN "stay" ELSE "gone"
     [] en.k \in {"retcall", "fwdcall"} ->
          IF AState(st, en.aid) = "prep" THEN "hold"
          ELSE IF AState(st, en.aid) = "zombie" THEN "gone" ELSE "stay"
@@ -725,9 +727,9 @@ RetFire(st, rid, has, val) ==
       s1 == [st EXCEPT !.rets[rid].s = IF has THEN "used" ELSE "dropped"]
   IN IF r.kind = "plain" \/ (r.kind = "somedo" /\ has) THEN [s1 EXCEPT !.expcb = Append(@, <<rid, has, val>>)]
      ELSE IF r.kind = "somedo" THEN s1
-     ELSE IF r.kind = "to" \/ has
+     ELSE IF r.kind \in {"to", "toprep"} \/ has
      THEN AppendMain([s1 EXCEPT !.rets[rid].cbs = @ + 1],
-                     [Entry("retcall", rid, r.aid, FALSE, Tag(st)) EXCEPT !.has = has, !.val = val])
+                     [Entry("retcall", rid, r.aid, r.kind = "toprep", Tag(st)) EXCEPT !.has = has, !.val = val])
      ELSE [s1 EXCEPT !.rets[rid].cbs = @ + 1]
 
 ApplyRet(st, e) ==
@@ -751,8 +753,10 @@ ApplyRCall(st, e) ==
   LET a == e.aid
       heldHit == Has(st.actors, a) /\ st.actors[a].held # << >> /\
                  st.actors[a].held[1].k = "retcall" /\ st.actors[a].held[1].id = e.rid
-      gate == B(AState(st, a) # "ready", "C02", "ret_to target method ran while actor not Ready")
-  IN IF heldHit
+      toprep == st.rets[e.rid].kind = "toprep"
+      gate == IF toprep THEN B(AState(st, a) # "prep", "C02", "Prep-style ret_to target ran outside Prep")
+              ELSE B(AState(st, a) # "ready", "C02", "ret_to target method ran while actor not Ready")
+  IN IF heldHit /\ ~toprep
      THEN LET en == st.actors[a].held[1]
               s1 == SettleHeld([st EXCEPT !.actors[a].held = Tail(@)], a)
           IN R(s1, gate \cup B(en.has # e.has \/ (en.has /\ en.val # e.val), "C05", "ret_to target received the wrong Some/None/value"))
